@@ -4,7 +4,7 @@ use crate::gen;
 use crate::runner::{CheckSpec, Family, Judge};
 
 pub fn all_props() -> Vec<&'static str> {
-    vec!["C02", "C03", "C04", "C06", "C08", "C09", "C10", "C11", "C16", "C17", "C18"]
+    vec!["C02", "C03", "C04", "C06", "C08", "C09", "C10", "C11", "C12", "C13", "C16", "C17", "C18"]
 }
 
 const REAL_RUST: &[&str] = &["/repo/src (blake3 crate, built from the working tree with --cfg blake3_team_blake3_verif)", "rayon-core", "memmap2", "digest", "zeroize", "arrayvec", "kernel VFS (scratch files)"];
@@ -18,6 +18,8 @@ pub fn spec(prop: &str) -> Option<CheckSpec> {
             families: vec![
                 Family { name: "c11-reader", gen: gen::c11_reader, quick: 120_000, thorough: 3_000_000, judge: Judge::Exec },
                 Family { name: "c11-file", gen: gen::c11_file, quick: 3_000, thorough: 60_000, judge: Judge::Exec },
+                Family { name: "c11-special", gen: gen::c11_special, quick: 600, thorough: 20_000, judge: Judge::Exec },
+                Family { name: "c11-bigwrite", gen: gen::c11_bigwrite, quick: 1_500, thorough: 40_000, judge: Judge::Exec },
             ],
             real: REAL_RUST.to_vec(),
             stubs: vec!["the reader behind update_reader is the simulator's SimReader (the seam under test)"],
@@ -57,6 +59,7 @@ pub fn spec(prop: &str) -> Option<CheckSpec> {
             families: vec![
                 Family { name: "c08", gen: gen::c08, quick: 60_000, thorough: 2_000_000, judge: Judge::Exec },
                 Family { name: "c08-c-tbb", gen: gen::c08_c, quick: 30_000, thorough: 1_000_000, judge: Judge::Exec },
+                Family { name: "c08-bigmmap", gen: gen::c08_bigmmap, quick: 96, thorough: 3_000, judge: Judge::Exec },
             ],
             real: REAL_RUST.to_vec(),
             stubs: vec!["the thread pool behind Join is the simulator (scripted VerifJoin hook) in 5/6 of the runs; real rayon-core in the rest", "C blake3_hasher_update_tbb: see c06/c08-c families (oneTBB absent; the harness implements the TBB link seam)"],
@@ -69,6 +72,7 @@ pub fn spec(prop: &str) -> Option<CheckSpec> {
             families: vec![
                 Family { name: "c18", gen: gen::c18, quick: 40_000, thorough: 1_500_000, judge: Judge::Solo },
                 Family { name: "c18-mixed-c", gen: gen::c18_mixed, quick: 30_000, thorough: 1_000_000, judge: Judge::Solo },
+                Family { name: "c18-streams", gen: gen::c18_streams, quick: 400, thorough: 15_000, judge: Judge::Solo },
             ],
             real: REAL_RUST.to_vec(),
             stubs: vec!["Rust cpufeatures detection cache is real but not schedulable (macro-generated private static): first-use race covered only by the process-level tier"],
@@ -79,10 +83,12 @@ pub fn spec(prop: &str) -> Option<CheckSpec> {
             level: "exploration",
             rule: "Exact replay across configurations: every plan of the C02 (histories), C03 (XOF/seek), C08 (scripted join) and C11 (reader) families is executed once per SIMD level this build can run (Portable, SSE2, SSE4.1, AVX2, AVX-512 forced through the detect() hook, plus real detection); the per-operation result digests must be identical in every configuration, and each execution is also judged by its own oracles. The check script repeats this for the default (assembly), prefer_intrinsics and pure builds and compares the per-run digests between builds. distinct_nontrivial = distinct state shapes + schedule signatures.",
             families: vec![
-                Family { name: "c04-c02", gen: gen::c04_hist, quick: 25_000, thorough: 600_000, judge: Judge::CompareLevels },
-                Family { name: "c04-c03", gen: gen::c04_xof, quick: 25_000, thorough: 600_000, judge: Judge::CompareLevels },
-                Family { name: "c04-c08", gen: gen::c04_join, quick: 8_000, thorough: 200_000, judge: Judge::CompareLevels },
-                Family { name: "c04-c11", gen: gen::c04_reader, quick: 15_000, thorough: 300_000, judge: Judge::CompareLevels },
+                Family { name: "c04-c02", gen: gen::c04_hist, quick: 12_000, thorough: 600_000, judge: Judge::CompareLevels },
+                Family { name: "c04-c03", gen: gen::c04_xof, quick: 20_000, thorough: 600_000, judge: Judge::CompareLevels },
+                Family { name: "c04-c08", gen: gen::c04_join, quick: 4_000, thorough: 200_000, judge: Judge::CompareLevels },
+                Family { name: "c04-c11", gen: gen::c04_reader, quick: 8_000, thorough: 300_000, judge: Judge::CompareLevels },
+                Family { name: "c04-c09giant", gen: gen::c04_giant, quick: 5_000, thorough: 300_000, judge: Judge::CompareLevels },
+                Family { name: "c04-c09", gen: gen::c04_cluster, quick: 2_000, thorough: 100_000, judge: Judge::CompareLevels },
             ],
             real: REAL_RUST.to_vec(),
             stubs: vec![],
@@ -132,6 +138,30 @@ pub fn spec(prop: &str) -> Option<CheckSpec> {
             real: vec!["/repo/c: blake3.c, blake3_dispatch.c, blake3_portable.c, the four unix .S kernels (ca_ flavour) and blake3_{sse2,sse41,avx2,avx512}.c (ci_ flavour), compiled from the working tree by the harness build.rs", "/repo/src (Rust twin)"],
             stubs: vec!["oneTBB parallel_invoke (blake3_tbb.cpp is not compiled; the simulator implements blake3_compress_subtree_wide_join_tbb)"],
             assumptions: vec!["SpecModel", "BLAKE3_TESTING makes g_cpu_features settable; masks are subsets of what the CPU supports"],
+        }),
+        "C12" => Some(CheckSpec {
+            prop: "C12",
+            level: "exploration",
+            rule: "The real b3sum binary (repository source, shadow manifest) runs as a process in a per-run sandbox directory. Hash family: file sets (sizes on both sides of 16 KiB, empty files, missing files, stdin as '-'), flag swarm over --keyed (stdin key of length 0..40), --derive-key, --length, --seek (C03 positions), --no-mmap, --num-threads, --raw, --no-names, --tag and combinations clap must refuse; oracle: stdout bytes = the library's extended output S[seek..seek+length] computed in the harness, in the documented line format; refused invocations print no digest and exit non-zero; exit status 0 iff every input was readable. Check family: checkfiles produced by real b3sum, then faults between the two runs (listed file deleted / modified / truncated / replaced by a directory; checkfile lines damaged by single-character edits, spliced malformed lines, CRLF rewriting, truncation, invalid UTF-8, a checkfile that does not exist, several checkfiles, checkfile on stdin); oracle: a line-by-line model of the documented format classifies every entry, exit status 0 iff all entries are OK, every later entry is still reported in order, a panic (exit 101) is a violation; for unreadable / non-UTF-8 checkfiles only the non-zero exit status is required. distinct_nontrivial = distinct (flag set x outcome) classes.",
+            families: vec![
+                Family { name: "c12-hash", gen: gen::c12_hash, quick: 1_500, thorough: 60_000, judge: Judge::Exec },
+                Family { name: "c12-check", gen: gen::c12_check, quick: 1_200, thorough: 60_000, judge: Judge::Exec },
+            ],
+            real: vec!["/repo/b3sum/src/main.rs built through /verif/shadow/b3sum (release)", "/repo/src", "clap, rayon-core, memmap2, anyhow, hex", "kernel VFS, pipes, process exit status"],
+            stubs: vec!["wild::args_os = std::env::args_os (what wild is on Unix)", "clap without the wrap_help feature (terminal_size not in the cargo cache)"],
+            assumptions: vec!["the library's extended output as decided by C02/C03", "the checkfile format model in cli.rs (written from what_does_check_do.md and the property text)"],
+        }),
+        "C13" => Some(CheckSpec {
+            prop: "C13",
+            level: "exploration",
+            rule: "End-to-end family: files whose names are built from an alphabet rich in the characters that matter (space, double space, ') = ', 'BLAKE3 (', backslash, LF, CR, literal backslash-n, multi-byte UTF-8, invalid UTF-8 bytes, U+FFFD) and pairs engineered to collide under a sloppy parser (contents differ) are hashed by real b3sum (plain and --tag), the checkfile is optionally rewritten to CRLF / damaged, and verified by real b3sum --check: representable paths must come back OK under exactly their own name, unrepresentable ones must fail. In-process family (b3sum's main.rs compiled into the harness by include!): for each path the line is built with the real filepath_to_string and parsed back with the real parse_check_line (must round-trip, or be rejected if unrepresentable), and every single-character substitution / insertion / deletion at every position (15 characters incl. NUL, U+FFFD, multi-byte, backslash, CR, LF) plus every truncation is parsed: never a panic, and Ok only with the path and 64 lowercase hex digits the documented format gives. distinct_nontrivial = distinct outcome classes.",
+            families: vec![
+                Family { name: "c13-parse", gen: gen::c13_parse, quick: 6_000, thorough: 300_000, judge: Judge::Exec },
+                Family { name: "c13-e2e", gen: gen::c13_e2e, quick: 1_200, thorough: 60_000, judge: Judge::Exec },
+            ],
+            real: vec!["/repo/b3sum/src/main.rs (as a process, and compiled into the harness for parse_check_line / filepath_to_string / unescape)", "/repo/src"],
+            stubs: vec!["wild::args_os = std::env::args_os", "clap without wrap_help"],
+            assumptions: vec!["the checkfile format model in cli.rs: a line whose text after an optional leading backslash starts with 'BLAKE3 (' is tagged (split at the last ') = '), otherwise plain (split at the first double space); 64 lowercase hex digits; escapes \\\\ \\n \\r only; no NUL / U+FFFD / empty path", "'for arbitrary text' is only reached in the neighbourhood of real records (single-character damage and truncation)"],
         }),
         _ => None,
     }
